@@ -9,12 +9,16 @@ def run(tier):
     failed = ck.proofs()
     n_g, n_r = (60, 8) if tier == "quick" else (3000, 30)
     res = P.run_family(ck, n_g, n_r, p_err=0.0, want_hist=False, conflict_bias=0.6)
-    ties = pc.tie_violations(ck, res, want_kinds=("parse",))
     st = {"conflicted_grammars": 0, "competing_entries": 0, "entries": 0, "runs_on_conflicted": 0}
     nontrivial = set()
     for r in res:
         if r["rc_a"] != 0:
             continue
+        if r["c05"].startswith("ok") and r["impl_lrtab"] != P.strip_c(r["model_lrtab"]):
+            # the model's table IS the stated rule applied to the canonical collection (oracle `ok`): a differing entry of the
+            # generated table is a concrete counter-example to the property's first sentence
+            ck.violation("generated table entry differs from `shift if a shift competes, else the lowest-numbered production`: %s" % pc.first_table_diff(r["impl_lrtab"], P.strip_c(r["model_lrtab"])),
+                         {"bnf": r["text"], "generated": r["impl_lrtab"], "rule": P.strip_c(r["model_lrtab"])})
         mc = P.model_conflicts(r["model_lrtab"])
         if r["c05"].startswith("ok"):
             f = dict(x.split("=") for x in r["c05"].split()[1:])
@@ -27,6 +31,7 @@ def run(tier):
             st["conflicted_grammars"] += 1
             nontrivial.add(r["text"])
             st["runs_on_conflicted"] += sum(1 for c in r["cases"] if c["kind"] == "parse")
+    ties = pc.tie_violations(ck, res, want_kinds=("parse",))
     ck.proof_failures(failed, "C05 theorems")
     ck.cov.update({"evaluations": st["entries"] + st["runs_on_conflicted"], "distinct_nontrivial": len(nontrivial),
                    "rule": "random grammars with -a; every (state, terminal) entry of the generated table is compared with the rule stated outright over the competing item "
